@@ -27,6 +27,9 @@ func checkC02(c *Ctx) {
 	r074(c, "R02.6 redeploy-carries-over-healthy-balancers")
 	r012(c)
 	r171b(c)
+	// a rollout deploy works on the live service: its slot may be overwritten only with a balancer that passed the gate,
+	// or requests of the rollout group are answered 503 while the new targets are still being probed (shared with C01)
+	r011(c, "R02.7 slot-overwritten-only-after-health-gate")
 }
 
 // R02.1 deploy step order.
